@@ -8,6 +8,7 @@ package hx
 import (
 	"context"
 	"net/url"
+	"sync"
 
 	"github.com/ory/fosite"
 	"github.com/ory/fosite/storage"
@@ -124,4 +125,33 @@ func (s *valueStore) GetDeviceCodeSession(ctx context.Context, sig string, sess 
 		return d, nil
 	}
 	return r, nil
+}
+
+
+// contractStore: the device-code table as the storage contract documents it (handler/rfc8628/storage.go):
+// InvalidateDeviceCodeSession keeps the record, and GetDeviceCodeSession answers an invalidated code with the
+// stored request together with fosite.ErrInvalidatedDeviceCode. The reference store deletes instead.
+type contractStore struct {
+	*valueStore
+	mu   sync.Mutex
+	used map[string]fosite.DeviceRequester
+}
+
+func (s *contractStore) InvalidateDeviceCodeSession(ctx context.Context, sig string) error {
+	if r, err := s.MemoryStore.GetDeviceCodeSession(ctx, sig, nil); err == nil && r != nil {
+		s.mu.Lock()
+		s.used[sig] = cloneRequester(r).(fosite.DeviceRequester)
+		s.mu.Unlock()
+	}
+	return s.MemoryStore.InvalidateDeviceCodeSession(ctx, sig)
+}
+
+func (s *contractStore) GetDeviceCodeSession(ctx context.Context, sig string, sess fosite.Session) (fosite.DeviceRequester, error) {
+	s.mu.Lock()
+	r, ok := s.used[sig]
+	s.mu.Unlock()
+	if ok {
+		return cloneRequester(r).(fosite.DeviceRequester), fosite.ErrInvalidatedDeviceCode
+	}
+	return s.valueStore.GetDeviceCodeSession(ctx, sig, sess)
 }
